@@ -78,7 +78,7 @@ def fsrun : Handler
       | "none" => (canonical (run Gen.Script.script c (oks total)) kind none, "n/a")
       | "close" =>
         (canonical (run Gen.Script.script c (oks kN ++ [.closed])) kind none, dem (Spec.FailStop.closeInScope sc kN))
-      | "garbage" | "trunc" | "biggarbage" | "count" =>
+      | "garbage" | "trunc" | "biggarbage" | "count" | "shrink" =>
         (canonical (run Gen.Script.script c (one .garbage)) kind (if inConv then some kN else none),
          dem (Spec.FailStop.garbageInScope sc kN))
       | "other" =>
